@@ -65,11 +65,13 @@ theorem replaceInline_specials (rec : Rec) (env : Env) (t : Str) (e : Expand)
   wp_go'
   all_goals first | exact ⟨_, rfl⟩ | simp_all
 
-/-- **A `$n` group can neither end its attribute value nor open a tag**, in every template, for every group text,
-    macro table, session and nested renderer (the options passed by every caller have `spans` unset). -/
+/-- **A `$n` group inside a quoted attribute value can neither end the value nor open a tag**, in every template, for
+    every group text, macro table, session and nested renderer (the options passed by every caller have `spans`
+    unset).  "Inside a quoted attribute value" is what `replaceMatch` computes from the template: an odd number of
+    double quotes before the `$n` (`insideQuotes`). -/
 theorem attribute_group_is_confined (rec : Rec) (env : Env) (g : Str) (e : Expand) (s : Session)
     (hs : e.spans ≠ some true) :
-    wp (replaceGroupText rec env g false e) (fun out _ => Confined out) s := by
+    wp (replaceGroupText rec env g false e true) (fun out _ => Confined out) s := by
   unfold replaceGroupText
   simp only [Bool.false_eq_true, if_false]
   apply wp_bind
@@ -80,9 +82,50 @@ theorem attribute_group_is_confined (rec : Rec) (env : Env) (g : Str) (e : Expan
     cases h : e.spans with
     | none => rfl
     | some b => cases b <;> simp_all
-  simp only [hsp, if_true]
+  simp only [hsp, Bool.and_true, if_true]
   subst hu
   exact quot_escape_confined u
+
+/-- **A `$n` group anywhere else is escaped text**: outside a quoted attribute value its double quotes are left alone
+    (F39), `<` `>` `&` are escaped as everywhere. -/
+theorem text_group_is_escaped (rec : Rec) (env : Env) (g : Str) (e : Expand) (s : Session) (ia : Bool)
+    (hs : e.spans ≠ some true) :
+    wp (replaceGroupText rec env g false e ia) (fun out _ => '<' ∉ out ∧ '>' ∉ out) s := by
+  cases ia with
+  | true => exact wp_mono (attribute_group_is_confined rec env g e s hs) (fun _ _ h => ⟨h.2.1, h.2.2⟩)
+  | false =>
+    unfold replaceGroupText
+    simp only [Bool.false_eq_true, if_false, Bool.and_false]
+    apply wp_bind
+    refine wp_mono (replaceInline_specials rec env g { e with specials := some true } hs rfl s) ?_
+    intro out s' ⟨u, hu⟩
+    apply wp_pure
+    subst hu
+    exact replaceSpecialChars_noAngle u
+
+/-- every `$n` (one dollar) that stands inside a tag of the template stands inside double quotes by the count that
+    `replaceMatch` uses, or directly after a letter (the `h$1` of the header template, whose group is a digit) -/
+def attrGroupsQuoted : Str → Bool → Nat → Char → Bool
+  | [], _, _, _ => true
+  | c :: t, inTag, quotes, prev =>
+    (if c == '$' && prev != '$' && inTag then
+      match t with
+      | d :: _ => !d.isDigit || quotes % 2 == 1 || prev.isAlpha
+      | [] => true
+     else true) &&
+    attrGroupsQuoted t (if c == '<' then true else if c == '>' then false else inTag)
+      (if c == '"' then quotes + 1 else quotes) c
+
+/-- **In the templates of the source the quote count is the attribute structure**: in every default replacement
+    and line-block template (regenerated from the source), a `$n` inside a tag is inside a double-quoted value. -/
+theorem default_templates_quote_their_attribute_groups :
+    (Gen.replDefaultDefs.all fun d => attrGroupsQuoted d.replacement false 0 ' ') = true ∧
+    (Gen.lineDefs.all fun d => attrGroupsQuoted d.replacement false 0 ' ') = true := by
+  constructor <;> decide +kernel
+
+/-- the check is not vacuous: an unquoted attribute group is refused -/
+example : attrGroupsQuoted "<a href=$1>".toList false 0 ' ' = false ∧
+    attrGroupsQuoted "<a href=\"$1\">$1</a>".toList false 0 ' ' = true := by decide
 
 /-! ## 3. the HTML policy -/
 
